@@ -82,6 +82,7 @@ func runC13Chain(seed uint64, n int, outDir string, replay string) {
 				depth  uint64
 			}
 			var pending []pend
+			refunds := new(big.Int)
 			rewarded := map[common.Hash]uint64{} // seal (block or share) hash -> height of the block that issued its reward
 			for b := 0; b < 36; b++ {
 				st, err := w.step()
@@ -92,6 +93,10 @@ func runC13Chain(seed uint64, n int, outDir string, replay string) {
 				blk := st.blk
 				num := blk.NumberU64(common.ZONE_CTX)
 				for _, tx := range blk.Transactions() {
+					if tx.Type() == types.ExternalTxType && tx.EtxType() == types.ConversionRevertType && tx.To() != nil && tx.To().IsInQiLedgerScope() && tx.ETXSender().Equal(cwRefundAddr()) {
+						refunds.Add(refunds, tx.Value()) // a reverted Quai->Qi conversion: the Quai goes back to who sent it
+						o.Count(fmt.Sprintf("refund:datalen=%d", len(tx.Data())))
+					}
 					if tx.Type() != types.ExternalTxType || tx.To() == nil || !tx.To().IsInQuaiLedgerScope() {
 						continue
 					}
@@ -120,6 +125,11 @@ func runC13Chain(seed uint64, n int, outDir string, replay string) {
 				if err != nil {
 					o.Violate("c06-state-does-not-open", fmt.Sprintf("block %d: %v", num, err))
 					return
+				}
+				if ria, err := cwRefundAddr().InternalAddress(); err == nil {
+					if have := stt.GetBalance(ria); have.Cmp(refunds) != 0 {
+						o.Violate("c20-conversion-revert-not-refunded", fmt.Sprintf("block %d: reverted Quai->Qi conversions of the refund-only account sum to %s, the account holds %s", num, refunds, have))
+					}
 				}
 				var parts []string
 				for i, a := range watch {
